@@ -55,6 +55,12 @@ def parse_color(attr_value: str) -> styles.ColorType:
       )
     )
 
+  m = _DEC_COLOR_RE.fullmatch(attr_value) or _DEC_COLORA_RE.fullmatch(attr_value)
+
+  if m and any(int(c) > 255 for c in m.groups()):
+
+    raise ValueError("Color components must be in the range 0 to 255")
+
   m = _DEC_COLOR_RE.fullmatch(attr_value)
 
   if m:
